@@ -16,11 +16,12 @@ func init() {
 		r.floor("R3", 3)
 	}, checkC17)
 	register("C16", func(r *Report) {
-		r.Explanation = "Decides: (R1) the gateway's retry callback re-sends exactly the object it is handed - the step data stored by the last Proceed (same message ID and payload); (R2) it sets DUP whenever that object has a DUP flag (MQTT-SN packets with the DUP property, MQTT PUBLISH); (R3) the per-step tables of the broker-publish transactions, extracted by exploring each handler per transaction state: QoS 1 awaitingRegack -> awaitingPuback -> done, QoS 2 awaitingRegack -> awaitingPubrec -> awaitingPubrel -> awaitingPubcomp -> done, each step forwarding the acknowledgement to the right side with the trigger's message ID, and a handler in the wrong state neither sends nor changes state; (R4) budget stop: after the retry budget the transaction fails and nothing re-arms (C18-R2/C19-R1, re-checked here); (R5) the peer side: the client stores every received QoS 2 PUBLISH for the PUBREL and answers every PUBREL (C17-R3). Not decided: end-to-end delivery for a given loss pattern; handler-exactly-once (history)."
+		r.Explanation = "Decides: (R1) the gateway's retry callback re-sends exactly the object it is handed - the step data stored by the last Proceed (same message ID and payload); (R2) it sets DUP whenever that object has a DUP flag (MQTT-SN packets with the DUP property, MQTT PUBLISH); (R3) the per-step tables of the broker-publish transactions, extracted by exploring each handler per transaction state: QoS 1 awaitingRegack -> awaitingPuback -> done, QoS 2 awaitingRegack -> awaitingPubrec -> awaitingPubrel -> awaitingPubcomp -> done, each step forwarding the acknowledgement to the right side with the trigger's message ID, and a handler in the wrong state neither sends nor changes state; (R4) budget stop: after the retry budget the transaction fails and nothing re-arms (C18-R2/C19-R1, re-checked here); (R5) the peer side: the client stores every received QoS 2 PUBLISH for the PUBREL and answers every PUBREL (C17-R3). (R7) the REGISTER step survives a lost REGACK: the client answers a REGISTER of an unknown name and a REGISTER repeating a known (name, ID) pair with REGACK(accepted). Not decided: end-to-end delivery for a given loss pattern; handler-exactly-once (history)."
 		r.floor("R1", 1)
 		r.floor("R2", 1)
 		r.floor("R3", 8)
 		r.floor("R5", 2)
+		r.floor("R7", 2)
 	}, checkC16)
 }
 
@@ -816,6 +817,50 @@ func checkC16(c *Ctx, r *Report) {
 			}
 		}
 		r.cond(okc, "R5", key, c.pos(cm.snDisp.Pos()), firstOutcome(outs), "the client swallows a (retransmitted) PUBREL without PUBCOMP: the gateway can never complete the QoS 2 exchange")
+	}
+	// R7: the REGISTER step survives a lost REGACK: the gateway retransmits the same (name, ID) pair and the
+	// client must accept it again (explored with a symbolic registered-topics lookup)
+	for _, sc := range []struct {
+		name          string
+		found, stored int64
+		wantAccepted  bool
+	}{{"unknown-name", 0, 0, true}, {"known-name-same-id", 1, 7, true}} {
+		e := cm.clientExplorer()
+		sc := sc
+		prev := e.ValueHook
+		e.ValueHook = func(v ssa.Value, ex *explorer, st *pstate, fr *frame) (aval, bool) {
+			if x, ok := v.(*ssa.Extract); ok {
+				if lk, ok := x.Tuple.(*ssa.Lookup); ok && lk.CommaOk {
+					if mt, ok := lk.X.Type().Underlying().(*types.Map); ok {
+						if b, ok := mt.Elem().Underlying().(*types.Basic); ok && b.Kind() == types.Uint16 {
+							if x.Index == 0 {
+								return kint(sc.stored), true
+							}
+							return kint(sc.found), true
+						}
+					}
+				}
+			}
+			if prev != nil {
+				return prev(v, ex, st, fr)
+			}
+			return aval{}, false
+		}
+		outs := e.Explore(cm.snDisp, map[string]aval{"type:sn": kstr("*packets1.Register"), "f:packets1.Register.TopicID": kint(7)}, nil)
+		key := "client-REGISTER[" + sc.name + "]"
+		okc := len(outs) > 0
+		for _, o := range outs {
+			acc := false
+			for _, ev := range eventsWithPrefix(o, "sn:") {
+				if strings.Contains(ev, "NewRegack(7,0)") {
+					acc = true
+				}
+			}
+			if !acc {
+				okc = false
+			}
+		}
+		r.cond(okc, "R7", key, c.pos(cm.snDisp.Pos()), firstOutcome(outs), "the client does not acknowledge this REGISTER with REGACK(accepted): when its first REGACK is lost the gateway's retransmission (same name, same ID) is rejected, the gateway fails the exchange and the broker's message is dropped although the loss was within the retry budget: "+allOutcomes(outs))
 	}
 	// the client's QoS 2 receive transaction keeps the PUBLISH it is handed (each time)
 	for _, f := range c.repoFuncs("client") {
